@@ -50,9 +50,19 @@ inductive PRes where
   | denied (pid : Nat)       -- a stat file that has to be read is unreadable
 deriving DecidableEq, Repr
 
-/-- `parent()` of the process `(pid, ct)` in the worlds of one step; `lowest` is the root PID -/
-def parentOfW (s : PStep) (lowest pid ct : Nat) : PRes :=
-  if pid = lowest then .none
+/-- CHARACTERISATION OF THE CODE (not the statement: see `parentLitW` below for the literal reading):
+    `parent()` of the process `(pid, ct)` in the worlds of one step, WITH psutil's lowest-PID stop — `lowest`
+    is what `_LOWEST_PID`/`pids()[0]` gives. `rg = false` is psutil as found (the stop answers None before any
+    identity check: a recycled lowest PID gets None), `rg = true` the repaired order
+    (fixes/C05-parent-root-recycled.diff: identity first). Look-up order as in the code: identity check →
+    own stat → parent. -/
+def parentOfW (rg : Bool) (s : PStep) (lowest pid ct : Nat) : PRes :=
+  if pid = lowest then
+    if rg then
+      match s.wi pid with
+      | .ok _ s0 => if s0 = ct then .none else .nsp pid
+      | _ => .nsp pid
+    else .none
   else
     match s.wi pid with
     | .ok _ s0 =>
@@ -70,15 +80,48 @@ def parentOfW (s : PStep) (lowest pid ct : Nat) : PRes :=
 
 /-- `parents()`: iterate `parentOfW`, step `i` in the worlds `W i`; stop at the root, at a PID
     already on the chain, or (NoSuchProcess) at an element that is no longer itself -/
-def chainDyn (W : Nat → PStep) (lowest : Nat) : Nat → Nat → List Nat → Nat → Nat → List Row → XOut (List Row)
+def chainDyn (rg : Bool) (W : Nat → PStep) (lowest : Nat) : Nat → Nat → List Nat → Nat → Nat → List Row → XOut (List Row)
   | 0, _, _, _, _, _ => .diverged
   | n + 1, i, seen, pid, ct, acc =>
-    match parentOfW (W i) lowest pid ct with
+    match parentOfW rg (W i) lowest pid ct with
     | .none => .ok acc
     | .nsp p => .nsp p
     | .denied p => .denied p
     | .some q =>
       if seen.contains q.pid then .ok acc
-      else chainDyn W lowest n (i + 1) (q.pid :: seen) q.pid q.start (acc ++ [q])
+      else chainDyn rg W lowest n (i + 1) (q.pid :: seen) q.pid q.start (acc ++ [q])
+
+/-! ### The LITERAL reading of the statement (no lowest-PID rule)
+
+  "parent() is the process named by ppid() unless that PID now belongs to a process younger than the caller
+  (then None) … and all of these raise NoSuchProcess when the caller's own PID has been recycled": first the
+  caller must still be itself, then its recorded ppid names the parent. Nothing about a lowest PID. -/
+
+def parentLitW (s : PStep) (pid ct : Nat) : PRes :=
+  match s.wi pid with
+  | .ok _ s0 =>
+    if s0 = ct then
+      match s.wo pid with
+      | .gone => .nsp pid
+      | .denied => .denied pid
+      | .ok pp _ =>
+        match s.wp pp with
+        | .gone => .none
+        | .denied => .denied pp
+        | .ok gp st => if st ≤ ct then .some ⟨pp, gp, st⟩ else .none
+    else .nsp pid
+  | _ => .nsp pid
+
+/-- `parents()` read literally: iterate `parentLitW` until there is no parent (or a PID repeats) -/
+def chainLitDyn (W : Nat → PStep) : Nat → Nat → List Nat → Nat → Nat → List Row → XOut (List Row)
+  | 0, _, _, _, _, _ => .diverged
+  | n + 1, i, seen, pid, ct, acc =>
+    match parentLitW (W i) pid ct with
+    | .none => .ok acc
+    | .nsp p => .nsp p
+    | .denied p => .denied p
+    | .some q =>
+      if seen.contains q.pid then .ok acc
+      else chainLitDyn W n (i + 1) (q.pid :: seen) q.pid q.start (acc ++ [q])
 
 end Psutil.C05.Spec
